@@ -2,9 +2,9 @@ package rules
 
 import (
 	"fmt"
-	"os"
 	"go/token"
 	"go/types"
+	"os"
 	"sort"
 	"strings"
 
@@ -184,9 +184,48 @@ func (br *boundsRun) install(in *sym.Interp, assume []*sym.Term) {
 func guardOf(fr *sym.Frame) *sym.Term { return fr.CurrentGuard() }
 
 // ruleC02_1: no panic in the parse layer.
-func ruleC02_1(c *Ctx) {
+func ruleC02_1(c *Ctx) { c.boundsRule(false) }
+
+// ruleC11_7: the same obligations restricted to the code that runs only for the disassembler.
+func ruleC11_7(c *Ctx) { c.boundsRule(true) }
+
+// printerOnly reports whether the instruction runs only when a printer is present: it lies in the printer closure
+// or in a block dominated by the true edge of a "p != nil" test.
+func printerOnly(ins ssa.Instruction) bool {
+	fn := ins.Parent()
+	if fn.Parent() != nil && fn.Parent().Name() == "Disassemble" {
+		return true
+	}
+	b := ins.Block()
+	for d := b; d != nil; d = d.Idom() {
+		id := d.Idom()
+		if id == nil || len(id.Instrs) == 0 {
+			continue
+		}
+		iff, ok := id.Instrs[len(id.Instrs)-1].(*ssa.If)
+		if !ok || id.Succs[0] != d || len(d.Preds) != 1 {
+			continue
+		}
+		cmp, ok := iff.Cond.(*ssa.BinOp)
+		if !ok || cmp.Op != token.NEQ {
+			continue
+		}
+		if n, ok := cmp.X.Type().(*types.Named); ok && n.Obj().Name() == "printer" {
+			if k, isC := cmp.Y.(*ssa.Const); isC && k.IsNil() {
+				return true
+			}
+		}
+	}
+	return false
+}
+
+func (c *Ctx) boundsRule(printerPart bool) {
 	R := c.R
-	R.Rule("C02.1", "no panic in the parse layer: every index, slice, string index, integer division, unchecked type assertion, call through a function value and interface call in the functions reachable from Decode / DecodeViewBox / Disassemble (not counting the destination's and the caller's option code) is shown in range / non-nil under the path condition of every context in which it is evaluated (2x256 opcode keys, every operand decoder, metadata chunks per identifier and palette format, the printer closure), and every such instruction is evaluated in some context", 150)
+	if printerPart {
+		R.Rule("C11.7", "no panic in the code that runs only for the disassembler (the printer closure and every region guarded by a printer being present): each index, slice, division and call there is shown in range / non-nil under its path condition in every context (2x256 opcode keys, operand decoders, metadata chunks per format); so Disassemble cannot panic where Decode returns", 40)
+	} else {
+		R.Rule("C02.1", "no panic in the parse layer: every index, slice, string index, integer division, unchecked type assertion, call through a function value and interface call in the functions reachable from Decode / DecodeViewBox / Disassemble (not counting the destination's and the caller's option code) is shown in range / non-nil under the path condition of every context in which it is evaluated (2x256 opcode keys, every operand decoder, metadata chunks per identifier and palette format, the printer closure), and every such instruction is evaluated in some context", 150)
+	}
 	R.Assume("pointers handed between the decode functions are non-nil by construction (addresses of locals); a Destination's own methods and caller-supplied options are outside the parse layer")
 	layer := c.parseLayer()
 	var optT types.Type
@@ -264,6 +303,9 @@ func ruleC02_1(c *Ctx) {
 				}
 			}
 		}
+		if printerPart {
+			continue
+		}
 		R.Check(okPost && nLeaves > 0, "(decode.buffer)."+name+"#postcondition", c.FPos(fn), "every return has a constant byte count n in 0..4 with len(b) >= n on its path", fmt.Sprintf("%d return paths %s", nLeaves, detail))
 	}
 	// 3. metadata chunks: identifier symbolic, and the palette per format
@@ -334,7 +376,7 @@ func ruleC02_1(c *Ctx) {
 	}
 
 	// B5 / B8 for the mode-function call in decode's main loop
-	if decodeIn != nil {
+	if decodeIn != nil && !printerPart {
 		var mfCall *sym.Event
 		for _, ev := range decodeIn.Events {
 			if ev.Kind == "indirect" && len(ev.Args) == 3 {
@@ -402,6 +444,9 @@ func ruleC02_1(c *Ctx) {
 		name := c.P.FuncName(fn)
 		seenKey := map[string]int{}
 		for _, ins := range panicSites(fn, optT) {
+			if printerPart && !printerOnly(ins) {
+				continue
+			}
 			nSites++
 			kind := strings.TrimPrefix(fmt.Sprintf("%T", ins), "*ssa.")
 			seenKey[kind]++
@@ -439,11 +484,15 @@ func ruleC02_1(c *Ctx) {
 			R.Obligation(construct, c.Pos(ins), triv, fmt.Sprintf("evaluated %d times", sr.evaluated), strings.Join(proofs, " ; "))
 		}
 	}
-	R.Count("C02.1.functions_in_parse_layer", len(fns))
-	R.Count("C02.1.sites", nSites)
-	R.Count("C02.1.trivial_sites(constant index into a fresh argument array)", nTrivial)
+	pfx := "C02.1"
+	if printerPart {
+		pfx = "C11.7"
+	}
+	R.Count(pfx+".functions_in_parse_layer", len(fns))
+	R.Count(pfx+".sites", nSites)
+	R.Count(pfx+".trivial_sites(constant index into a fresh argument array)", nTrivial)
 	for k, v := range counts {
-		R.Count("C02.1.sites."+k, v)
+		R.Count(pfx+".sites."+k, v)
 	}
 }
 
